@@ -76,6 +76,8 @@ pub enum Which {
     C19,
     /// nesting stage of C17: macros nested inside operands, captures, initial values, to depth 3
     C17,
+    /// chain stage of C12: a `let` name in front of a branch does not change the result
+    C12,
 }
 
 /// closing mode of the forced wrapper (C02): 0 explicit `<<<`, 1 implicit at the end of a step, 2 implicit at the end of the branch
@@ -102,7 +104,7 @@ fn gen_prog(rng: &mut TestRng, i: usize, which: Which) -> ChainProg {
             let (sp, c) = SPELLINGS[i % 22];
             (Some((c, sp == ">.", false)), 0)
         }
-        Which::C19 | Which::C17 => (None, 0),
+        Which::C19 | Which::C17 | Which::C12 => (None, 0),
         Which::C11 => {
             // every operator that takes expression operands; fold / try_fold (two operands) twice as often
             let hoistable = [Comb::Map, Comb::AndThen, Comb::Filter, Comb::Inspect, Comb::Then, Comb::Chain, Comb::FindMap, Comb::FilterMap, Comb::Partition, Comb::Find, Comb::Zip, Comb::Or, Comb::OrElse, Comb::MapErr, Comb::Fold, Comb::TryFold, Comb::Fold, Comb::TryFold];
@@ -123,7 +125,7 @@ fn gen_prog(rng: &mut TestRng, i: usize, which: Which) -> ChainProg {
             base: (b as u32) * 1000,
             caps: match which {
                 Which::C11 => 0.6,
-                Which::C10 => 0.35,
+                Which::C10 => 0.45,
                 _ => 0.15,
             },
             ck: if which == Which::C10 { 0.5 } else { 0.0 },
@@ -131,7 +133,11 @@ fn gen_prog(rng: &mut TestRng, i: usize, which: Which) -> ChainProg {
             nest: if which == Which::C17 { 0.45 } else { 0.0 },
             nest_depth: 0,
             nest_log: vec![],
-            wrappers: if which == Which::C02 { 0.3 } else { 0.12 },
+            wrappers: match which {
+                Which::C02 => 0.3,
+                Which::C10 | Which::C11 => 0.25,
+                _ => 0.12,
+            },
             shapes: true,
             allow_deferred: !kind.is_try && (!kind.is_async || fam == Family::AsyncReal),
             // Soundness rule (DESIGN 7.3): a hoisted `Copy` capture used inside a non-move wrapper closure is
@@ -199,7 +205,7 @@ fn gen_prog(rng: &mut TestRng, i: usize, which: Which) -> ChainProg {
         }
         // sometimes the initial value is an expression that binds weaker than a method call: the
         // documented chain applies the first combinator to the whole value
-        if !(b == 0 && force.is_some()) && !borrowed && fam != Family::AsyncReal && rb(g.rng, 0.25) {
+        if !(b == 0 && force.is_some()) && !borrowed && fam != Family::AsyncReal && rb(g.rng, if which == Which::C12 { 0.6 } else { 0.25 }) {
             let (t, text) = match g.rng.random_range(0..5) {
                 0 => (Ty::I64, format!("inp::<i64>({}) + inp::<i64>({})", b, b + 50)),
                 1 => (Ty::I64, format!("-inp::<i64>({})", b)),
@@ -312,7 +318,7 @@ fn gen_prog(rng: &mut TestRng, i: usize, which: Which) -> ChainProg {
             }
         }
         nestings.extend(g.nest_log.iter().cloned());
-        let let_name = if rb(g.rng, 0.25) { Some((format!("nm{}", b), rb(g.rng, 0.3))) } else { None };
+        let let_name = if rb(g.rng, if which == Which::C12 { 0.85 } else { 0.25 }) { Some((format!("nm{}", b), rb(g.rng, 0.3))) } else { None };
         branches.push(ChainBranch { locals, let_name, init_ty: init_ty.clone(), init_text: init_text.clone(), ops, fin });
     }
     // C17: a handler whose body is a nested macro invocation over the results
@@ -353,7 +359,9 @@ fn gen_prog(rng: &mut TestRng, i: usize, which: Which) -> ChainProg {
             handler = Some((hkind.to_string(), format!("|{}| {{ {} }}", params.join(", "), body)));
         }
     }
-    ChainProg { fam, mac: mac.to_string(), branches, nestings, handler }
+    // C19: the non-spawning async macros with a (pass-through) custom joiner must not add a Send bound either
+    let options = if which == Which::C19 && kind.is_async && branches.len() >= 2 && rb(rng, 0.4) { format!("custom_joiner(jvrt::{}!) ", if kind.is_try { "jv_ptry" } else { "jv_pjoin" }) } else { String::new() };
+    ChainProg { fam, mac: mac.to_string(), branches, nestings, handler, options }
 }
 
 fn strategy(i: usize, which: Which) -> impl Strategy<Value = ChainProg> {
@@ -400,9 +408,9 @@ pub fn case_code(p: &ChainProg, idx: usize) -> (String, usize, usize, bool) {
         }
     }
     if kind.is_async {
-        mac.push_str(&format!("    block_on(async {{\n        let __r = ::join::{}! {{\n            {}\n        }}.await;\n        format!(\"{{:?}}\", __r)\n    }})\n}}\n", p.mac, body.join(",\n            ")));
+        mac.push_str(&format!("    block_on(async {{\n        let __r = ::join::{}! {{\n            {}{}\n        }}.await;\n        format!(\"{{:?}}\", __r)\n    }})\n}}\n", p.mac, p.options, body.join(",\n            ")));
     } else {
-        mac.push_str(&format!("    let __r = ::join::{}! {{\n        {}\n    }};\n    format!(\"{{:?}}\", __r)\n}}\n", p.mac, body.join(",\n        ")));
+        mac.push_str(&format!("    let __r = ::join::{}! {{\n        {}{}\n    }};\n    format!(\"{{:?}}\", __r)\n}}\n", p.mac, p.options, body.join(",\n        ")));
     }
     let ref_from = mac.matches('\n').count();
     // ---- reference side: per branch, step by step; the block captures of a step are evaluated
@@ -631,6 +639,7 @@ pub fn run(id: &str, tier: &str, seed: u64) -> i32 {
         "C11" => Which::C11,
         "C19" => Which::C19,
         "C17" => Which::C17,
+        "C12" => Which::C12,
         _ => Which::C01,
     };
     let (count, inputs) = match (which, tier) {
@@ -645,6 +654,7 @@ pub fn run(id: &str, tier: &str, seed: u64) -> i32 {
     ev.rule = match which {
         Which::C01 => "programs: typed chains (random walk over i64 / usize / bool / () / Option / Result<_, i64> / Vec / tuples / iterators, nesting <= 3), 1-3 independent chains per invocation, length 1-8 plus closing; program i is forced to contain operator spelling i mod 22 and uses macro name i mod 12 (async macros: half sync chains closed with `-> ready`, half chains over real futures and streams - FutureExt / TryFutureExt / StreamExt / TryStreamExt methods incl. `^^>` of futures of futures and streams of streams, `->` receiving the future itself, `~` where a step ends in a future; `??` meaning `.inspect`); operands fully typed, in varied shapes (call returning a closure, typed closure, closure with return type, parenthesised, macro call, block capture), `~` at random positions in the non-try sync macros; inputs: 8 boundary seeds + proptest-free hash-derived seeds building the initial values (None / Err / empty and non-empty vectors included). Oracle: differential against the documented method chain with the same operand text compiled in the same binary - Debug of the result, ordered callback-invocation trace (per branch when branches run on threads), multiset of all events; the macro side not compiling while the reference side does is a violation, the reverse is a generator bug (exit 2). Non-trivial = >= 2 operators and >= 1 callback invoked on that input",
         Which::C10 => "chain stage: typed chains as in C01 (all 22 operator spellings forced in turn, all 12 macro names) with block captures on 35 % of the operands and the clone- and drop-counting value type `Ck` in half of the scalar positions (fold / try_fold initial values, iterator items, Option / Result payloads); oracle against the documented chain compiled in the same binary: equal multiset of evaluation events (every operand expression and capture once, every callback as often as the std method calls it - per element for iterator callbacks), equal number of clones of counted values, no counted value alive after the result is dropped. Non-trivial = >= 2 callbacks invoked and >= 1 capture",
+        Which::C12 => "chain stage: typed chains under all 12 macro names in which 85 % of the branches carry `let name =` / `let mut name =` on the macro side only, 60 % of them with an initial value that binds weaker than a method call (`a + b`, `-x`, `!b`, `x as T`, `a == 2`); metamorphic oracle: the named program equals the documented chain written without any name (result, callback traces, event multiset). Non-trivial = >= 2 operators and >= 1 callback invoked",
         Which::C17 => "nesting stage: typed chains under all 12 macro names in which 45 % of the callback operands are closures around a nested macro invocation (any of the 12 names, chosen by the type the operand must return; async ones driven by a no-op-waker poll loop), block captures that evaluate a nested invocation, initial values that are macro invocations, and (40 % of the programs) a then / map / and_then handler whose body is a nested invocation over the results; nested bodies are generated by the same chain generator, recursively to depth 3 (wrappers, captures, further nestings inside). Oracle (metamorphic + differential): the outer macro against the documented chain with the same operand text - so every nested invocation is evaluated once inside a macro expansion and once in plain Rust - equal results, callback traces and event multisets. Non-trivial = >= 2 operators and >= 1 callback invoked; classes count nestings by place, inner macro and depth",
         Which::C19 => "bounds stage: typed chains under join! / try_join! / join_async! / try_join_async! with 1-7 branches whose values include `Ns` (holds an Rc: neither Send nor Clone) and `Mv` (move-only) in 60 % of the scalar positions, and half of whose branches borrow - shared (`&Vec` iterated) or mutably (`iter_mut` with a callback that changes the element in place) - from locals of the calling function; oracle: the macro side compiles whenever the documented chain compiles (a new Clone / Send / 'static requirement is a compile error on the macro side only) and both give the same result and callback traces. Non-trivial = >= 2 operators and >= 1 callback invoked",
         Which::C11 => "chain stage: typed chains in which program i is forced to contain hoistable operator i mod 18 (the 14 expression-operand operators, `^@` / `?^@` twice as often) with block operands on 60 % of the operand positions - both operands of fold / try_fold, operands inside nested wrappers, several per branch and step; oracle: per branch the sequence of capture evaluations equals the written (position) order, each exactly once. Non-trivial = >= 2 captures evaluated",
@@ -657,7 +667,7 @@ pub fn run(id: &str, tier: &str, seed: u64) -> i32 {
         "futures and streams in the async chains are immediately ready (ready(), stream::iter): pending points are the business of C03 / C09".into(),
     ];
     let known = evid::Known::load();
-    let mut runner = new_runner(seed, match which { Which::C01 => 0xc01, Which::C02 => 0xc02, Which::C10 => 0xc10, Which::C11 => 0xc11, Which::C19 => 0xc19, Which::C17 => 0xc17 }, 1);
+    let mut runner = new_runner(seed, match which { Which::C01 => 0xc01, Which::C02 => 0xc02, Which::C10 => 0xc10, Which::C11 => 0xc11, Which::C19 => 0xc19, Which::C17 => 0xc17, Which::C12 => 0xc12 }, 1);
     let mut progs: Vec<ChainProg> = Vec::new();
     let mut seen = HashSet::new();
     for i in 0..count {
